@@ -121,7 +121,8 @@ struct Extractor : public RecursiveASTVisitor<Extractor> {
         if (T.isNull()) return "";
         if (canon) T = T.getCanonicalType();
         std::string s = T.getAsString(PP);
-        if (s.size() > 400) s = s.substr(0, 400) + "...";
+        // very long instantiation names: keep both ends (rules look at the outer template AND at the trailing `node *`, `&`)
+        if (s.size() > 400) s = s.substr(0, 240) + "..." + s.substr(s.size() - 150);
         return s;
     }
 
